@@ -1,7 +1,9 @@
 package checks
 
 import (
+	"context"
 	"encoding/hex"
+	"errors"
 	"fmt"
 	"sort"
 	"strings"
@@ -12,6 +14,7 @@ import (
 	"github.com/attestantio/dirk/core"
 	"github.com/attestantio/dirk/rules"
 	"github.com/attestantio/dirk/services/checker"
+	"github.com/attestantio/dirk/util/verifhook"
 	e2types "github.com/wealdtech/go-eth2-types/v2"
 )
 
@@ -30,13 +33,31 @@ type Ent struct {
 
 // SOp is an operation against one signer instance.
 type SOp struct {
-	Kind string `json:"kind"` // "att" (single), "atts" (batch), "prop", "restart"
+	Kind string `json:"kind"` // "att" (single), "atts" (batch), "prop", "restart", "legacy-att", "legacy-prop"
 	Ents []Ent  `json:"ents,omitempty"`
+	// Fault "write": every write to the slashing-protection store fails while this request is served (reads work).
+	Fault string `json:"fault,omitempty"`
+}
+
+type sigFaultKey struct{}
+
+// InstallSigFaults makes the store hooks honour SOp.Fault. The handler is process-wide; a request is recognised by
+// the value its context carries, so workers running side by side do not disturb each other.
+func InstallSigFaults() {
+	verifhook.SetHandler(func(ctx context.Context, site string, _ ...any) error {
+		if f, _ := ctx.Value(sigFaultKey{}).(string); f == "write" && (site == "store.store" || site == "store.batchstore") {
+			return errors.New("injected write failure")
+		}
+		return nil
+	})
 }
 
 func (o SOp) String() string {
 	var sb strings.Builder
 	sb.WriteString(o.Kind)
+	if o.Fault != "" {
+		sb.WriteString("[store " + o.Fault + " fails]")
+	}
 	for _, e := range o.Ents {
 		addr := "n"
 		if e.ByKey {
@@ -248,6 +269,10 @@ func (w *SigWorker) Continue(tr *Trace, path []SOp, verifyLast bool) error {
 	for i, op := range path {
 		step := base + i
 		last := verifyLast && i == len(path)-1
+		ctx := w.Rig.Ctx
+		if op.Fault != "" {
+			ctx = context.WithValue(ctx, sigFaultKey{}, op.Fault)
+		}
 		switch op.Kind {
 		case "restart":
 			if err := w.Rig.Restart(); err != nil {
@@ -288,7 +313,7 @@ func (w *SigWorker) Continue(tr *Trace, path []SOp, verifyLast bool) error {
 			} else {
 				name = "Wallet 1/" + a.Name()
 			}
-			res, sig := w.Rig.Signer.SignBeaconAttestation(w.Rig.Ctx, w.Creds, name, pk, AttData(e))
+			res, sig := w.Rig.Signer.SignBeaconAttestation(ctx, w.Creds, name, pk, AttData(e))
 			tr.Obs = append(tr.Obs, resLetter(res))
 			w.noteAtt(tr, step, last, e, a, res, sig)
 		case "atts":
@@ -307,7 +332,7 @@ func (w *SigWorker) Continue(tr *Trace, path []SOp, verifyLast bool) error {
 				}
 				data[i] = AttData(e)
 			}
-			ress, sigs := w.Rig.Signer.SignBeaconAttestations(w.Rig.Ctx, w.Creds, names, pks, data)
+			ress, sigs := w.Rig.Signer.SignBeaconAttestations(ctx, w.Creds, names, pks, data)
 			var sb strings.Builder
 			for i := range op.Ents {
 				var res core.Result = core.ResultUnknown
@@ -338,7 +363,7 @@ func (w *SigWorker) Continue(tr *Trace, path []SOp, verifyLast bool) error {
 			} else {
 				name = "Wallet 1/" + a.Name()
 			}
-			res, sig := w.Rig.Signer.SignBeaconProposal(w.Rig.Ctx, w.Creds, name, pk, PropData(e))
+			res, sig := w.Rig.Signer.SignBeaconProposal(ctx, w.Creds, name, pk, PropData(e))
 			tr.Obs = append(tr.Obs, resLetter(res))
 			if len(sig) > 0 {
 				root := PropRoot(e)
